@@ -25,7 +25,7 @@ pub fn batches(prop: &str) -> Vec<Batch> {
         "C13" => vec![b("A", "mixed", 3000, 200_000), b("A", "restart", 500, 40_000)],
         "C20" => vec![b("A", "listing", 2000, 100_000)],
         "C18" => vec![b("A", "crash", 1500, 100_000), b("A", "restart-pair", 1000, 60_000), b("A", "images", 600, 30_000)],
-        "C05" => vec![b("A", "hostile", 3000, 200_000), b("B", "hostile", 2500, 150_000)],
+        "C05" => vec![b("A", "hostile", 3000, 200_000), b("B", "hostile", 2500, 150_000), b("C", "hostile", 2500, 150_000)],
         "C08" => vec![b("A", "acl-http", 2000, 100_000), b("B", "acl", 2500, 100_000)],
         "C03" => vec![b("B", "basic", 2500, 120_000), b("B", "sizes", 1500, 60_000), b("B", "faulty", 1500, 60_000), b("B", "cache", 800, 30_000)],
         "C04" => vec![b("B", "sizes", 3000, 120_000), b("B", "large", 400, 20_000), b("B", "basic", 1500, 60_000)],
@@ -41,6 +41,7 @@ pub fn batches(prop: &str) -> Vec<Batch> {
 pub fn make_job(world: &str, shape: &'static str, seed: u64, thorough: bool) -> Job {
     match world {
         "A" => Job::A(crate::wa_plan::generate(seed, &crate::wa_plan::GenOpts { shape, thorough })),
+        "C" => Job::C(crate::wc::generate(seed, thorough)),
         "B" => Job::B(crate::wb_plan::generate(seed, &crate::wb_plan::GenB { shape, thorough })),
         _ => unreachable!(),
     }
@@ -61,6 +62,10 @@ fn sample_of(job: &Job) -> serde_json::Value {
             "clients": p.clients.len(),
             "first_steps": v["A"]["steps"].as_array().map(|a| a.iter().take(6).cloned().collect::<Vec<_>>()),
             "steps": p.steps.len(),
+        }),
+        Job::C(p) => serde_json::json!({
+            "world": "C", "seed": p.seed, "ra_config": p.ra_config, "steps": p.steps.len(),
+            "first_steps": v["C"]["steps"].as_array().map(|a| a.iter().take(4).cloned().collect::<Vec<_>>()),
         }),
         Job::B(p) => serde_json::json!({
             "world": "B", "seed": p.seed, "shape": p.shape,
@@ -120,6 +125,39 @@ pub fn run_check(prop: &str, tier: &str, base_seed: u64, verif_dir: &str) -> i32
                     jobs.push(Job::A(q));
                 }
             }
+        }
+    }
+    /* determinism self-test: a sample of this check's own seeds is executed a second
+     * time in other children (at another worker count); the complete event-log hash,
+     * event count and violations must be identical */
+    let mut det = serde_json::json!({});
+    {
+        let per = if thorough { 300 } else { 24 };
+        let mut sample: Vec<Job> = vec![];
+        let mut off = 0usize;
+        for batch in &bs {
+            let n = ((if thorough { batch.thorough } else { batch.quick }) as f64 * scale).ceil() as usize;
+            sample.extend(jobs[off..off + n.min(per)].iter().cloned());
+            off += n;
+        }
+        let a = run_jobs(&sample, w, false, |_, _| {});
+        let b = run_jobs(&sample, (w / 3).max(1), false, |_, _| {});
+        let mut bad = vec![];
+        for i in 0..sample.len() {
+            let f = |o: &Outcome| match o {
+                Outcome::Done(r) => format!("{}:{}:{:?}", r.event_hash, r.events, r.violations.iter().map(|v| &v.kind).collect::<Vec<_>>()),
+                Outcome::Died(x) => x.clone(),
+            };
+            if f(&a[i]) != f(&b[i]) {
+                bad.push(format!("seed {}: {} vs {}", sample[i].seed(), f(&a[i]), f(&b[i])));
+            }
+        }
+        det = serde_json::json!({"seeds": sample.len(), "executions_each": 2, "worker_counts": [w, (w / 3).max(1)], "differing": bad.len()});
+        if !bad.is_empty() {
+            for x in bad.iter().take(5) {
+                eprintln!("harness error: nondeterminism: {}", x);
+            }
+            return 2;
         }
     }
     let mut sum = BatchSummary::new();
@@ -208,6 +246,7 @@ pub fn run_check(prop: &str, tier: &str, base_seed: u64, verif_dir: &str) -> i32
             "probes_at_zero": zero_probes,
             "observations": sum.observations,
             "known_findings_seen": known_lines,
+            "determinism_selftest": det,
             "crash_point_enumeration": {"exhaustive_per_history": true, "model": "process kill just before the k-th mutating VFS call (create/write/truncate/sync/delete); page cache survives", "histories": enumerated},
             "violations_of_other_properties_seen_and_ignored_here": other_props,
             "components": real_stub(),
